@@ -311,6 +311,39 @@ class KwCalls(ast.NodeTransformer):
         return node
 
 
+class FStrings(ast.NodeTransformer):
+    """`"a %s b %r" % (x, y)` (only %s / %r directives, literal left operand, tuple or single non-tuple right operand) becomes the
+    f-string `f"a {x!s} b {y!r}"` - wait: %s calls str(), {x!s} calls str() then format(): identical text"""
+    def visit_BinOp(self, node):
+        self.generic_visit(node)
+        if not (isinstance(node.op, ast.Mod) and isinstance(node.left, ast.Constant) and isinstance(node.left.value, str)):
+            return node
+        fmt = node.left.value
+        import re as _re
+        parts = _re.split(r"(%[sr])", fmt)
+        if "%" in "".join(p for p in parts if p not in ("%s", "%r")):
+            return node
+        n_dir = sum(1 for p in parts if p in ("%s", "%r"))
+        if isinstance(node.right, ast.Tuple):
+            args = list(node.right.elts)
+        elif isinstance(node.right, (ast.Name, ast.Attribute, ast.Call, ast.Subscript, ast.Constant)) and n_dir == 1:
+            if isinstance(node.right, (ast.Name, ast.Attribute, ast.Subscript, ast.Call)):
+                return node          # a single operand may itself be a tuple at run time: not convertible
+            args = [node.right]
+        else:
+            return node
+        if len(args) != n_dir or any(isinstance(a, ast.Starred) for a in args) or n_dir == 0:
+            return node
+        vals = []
+        it = iter(args)
+        for p in parts:
+            if p in ("%s", "%r"):
+                vals.append(ast.FormattedValue(value=next(it), conversion=115 if p == "%s" else 114, format_spec=None))
+            elif p:
+                vals.append(ast.Constant(value=p))
+        return ast.copy_location(ast.JoinedStr(values=vals), node)
+
+
 class OSErrorAliases(ast.NodeTransformer):
     """Python 3 aliases of OSError spelled as OSError: IOError, EnvironmentError, socket.error (same class objects)"""
     def visit_Name(self, n):
@@ -334,6 +367,10 @@ def transform(text, mode):
         for node in ast.walk(tree):
             if isinstance(node, (ast.FunctionDef, ast.AsyncFunctionDef)):
                 MODES[mode]().visit(node)
+        ast.fix_missing_locations(tree)
+        return ast.unparse(tree) + "\n"
+    if mode == "fstrings":
+        tree = FStrings().visit(tree)
         ast.fix_missing_locations(tree)
         return ast.unparse(tree) + "\n"
     if mode == "kwcalls":
